@@ -124,7 +124,9 @@ def load_known():
         return json.load(f).get('findings', [])
 
 
-def write_evidence(pid, tier, seed, level, coverage, wall, violations, assumptions):
+def write_evidence(pid, tier, seed, level, coverage, wall, violations, assumptions, extra=False):
+    # extra checks (conformance of spec modules that no listed property is about) keep their evidence apart
+    EVIDENCE_DIR = os.path.join(VERIF, 'evidence', 'extra') if extra else globals()['EVIDENCE_DIR']
     os.makedirs(EVIDENCE_DIR, exist_ok=True)
     ev = dict(property_id=pid, tier=tier, seed=seed, level=level, coverage=coverage,
               assumptions=assumptions, wall_s=round(wall, 2), violations=violations)
@@ -290,7 +292,7 @@ def _run_property(prop_name, tier, seed, replay, verbose):
         coverage.update(prop.extra_coverage(records, cases))
     if replay is None:
         write_evidence(pid, tier, seed, prop.LEVEL, coverage, time.time() - t0, len(new),
-                       prop.ASSUMPTIONS)
+                       prop.ASSUMPTIONS, extra=getattr(prop, 'EXTRA', False))
 
     # ---- 7. verdict ---------------------------------------------------------------
     if new:
@@ -316,7 +318,11 @@ def _run_property(prop_name, tier, seed, replay, verbose):
             log('judge note: ' + note[:600])
         for rid, clauses, fp in new[:10]:
             log('rejected record %d clauses=%s fingerprint=%s' % (rid, clauses, fp))
-        print('VIOLATION property=%s replay=%s' % (pid, path), flush=True)
+        if getattr(prop, 'EXTRA', False):
+            print('DRIFT spec=%s replay=%s (the code no longer follows this part of the specification; '
+                  'no listed property is decided by it)' % (pid, path), flush=True)
+        else:
+            print('VIOLATION property=%s replay=%s' % (pid, path), flush=True)
         return 1
     log('OK')
     return 0
